@@ -59,6 +59,17 @@ def choose_pairs(ctx: Ctx, kind: str, n: int) -> list[tuple[str, str]]:
     return pairs
 
 
+def third_property(a: str, b: str) -> str | None:
+    """The spelling a de-collided field name would have (input selection only)."""
+    from pyopenapi_gen.core.utils import NameSanitizer as NS
+
+    try:
+        c = NS.sanitize_method_name(b) + "_2"
+    except Exception:
+        return None
+    return c if c not in (a, b) and c != "_2" else None
+
+
 def ident_ok(s: str) -> bool:
     return isinstance(s, str) and s.isidentifier() and not keyword.iskeyword(s)
 
@@ -104,6 +115,10 @@ def run_pairs(ctx: Ctx, kind: str, pairs: list[tuple[str, str]], pkg: str) -> No
     for k, (a, b) in enumerate(pairs):
         if kind == "properties":
             schemas[f"NsHolder{k}"] = {"type": "object", "required": [a], "properties": {a: {"type": "string"}, b: {"type": "integer"}}}
+            c = third_property(a, b)
+            if c:
+                # plus a third property spelled like the name a de-collided field would get (addressLine / address_line / address_line_2)
+                schemas[f"NsHolder{k}"]["properties"][c] = {"type": "boolean"}
         elif kind == "enum_members":
             # plus a third value spelled like the name a de-duplicated member would get (ok / OK / ok_1)
             schemas[f"NsEnum{k}"] = {"type": "string", "enum": [a, b] + ([f"{a}_1"] if f"{a}_1" not in (a, b) else [])}
@@ -179,14 +194,23 @@ def run_pairs(ctx: Ctx, kind: str, pairs: list[tuple[str, str]], pkg: str) -> No
                     continue
                 m = entries[0]
                 load = m["load"] or {}
-                if set(load) != {a, b}:
-                    rec.violation("ns:properties:wire_keys_dropped_or_merged", feats, case, f"load map keys {sorted(load)} for declared {[a, b]}")
+                c = third_property(a, b)
+                declared = {a, b} | ({c} if c else set())
+                if set(load) != declared:
+                    rec.violation("ns:properties:wire_keys_dropped_or_merged", feats, case, f"load map keys {sorted(load)} for declared {sorted(declared)}")
                     continue
                 fa, fb = load[a], load[b]
                 fields = {f["name"]: f for f in m["fields"]}
                 if fa == fb or fa not in fields or fb not in fields:
                     rec.violation("ns:properties:not_two_distinct_fields", feats, case, f"{a!r}->{fa!r}, {b!r}->{fb!r}; fields {sorted(fields)}")
                     continue
+                if c:
+                    rec.count("ns_property_triples_with_suffix_spelling")
+                    fc = load[c]
+                    if fc in (fa, fb) or fc not in fields or len(fields) != 3 or "bool" not in fields[fc]["kind"]:
+                        rec.violation("ns:properties:suffix_spelled_property_merged", feats, case,
+                                      f"{a!r}->{fa!r}, {b!r}->{fb!r}, {c!r}->{fc!r}; fields {[(n, f['kind']) for n, f in sorted(fields.items())]}")
+                        continue
                 for nm in (fa, fb):
                     if not ident_ok(nm):
                         rec.violation("ns:properties:invalid_identifier", feats, case, nm)
